@@ -66,6 +66,9 @@ type WritePlan struct {
 	Post     int    `json:"post,omitempty"` // snappy only: bytes given to Write after ReadFrom has returned (more data arrives before Close)
 	SrcChunk int    `json:"src_chunk"`      // readfrom: the source yields at most this many bytes per Read (0 = all)
 	SrcEOF   bool   `json:"src_eof"`        // readfrom: the source returns its last bytes together with io.EOF
+	// Split > 0: the bytes that go through ReadFrom arrive from two sources, one after the other (two io.Copy calls into the
+	// same writer): the first ReadFrom gets this many bytes, a second one the rest
+	Split int `json:"rf_split,omitempty"`
 }
 
 type ReadPlan struct {
@@ -725,6 +728,13 @@ func (s *wsess) step() *failure {
 				end -= p.Post
 			}
 			rest := s.payload[s.off:end]
+			if p.Split > 0 && p.Split < len(rest) {
+				n, err := rf.ReadFrom(&chunkReader{b: rest[:p.Split], chunk: p.SrcChunk, eofWithData: p.SrcEOF})
+				if err != nil || n != int64(p.Split) {
+					return failf("write/"+s.tag, "stream %d: first ReadFrom of %d bytes returned (%d, %v)", s.idx, p.Split, n, err)
+				}
+				rest = rest[p.Split:]
+			}
 			n, err := rf.ReadFrom(&chunkReader{b: rest, chunk: p.SrcChunk, eofWithData: p.SrcEOF})
 			if err != nil || n != int64(len(rest)) {
 				return failf("write/"+s.tag, "stream %d: ReadFrom of %d bytes returned (%d, %v)", s.idx, len(rest), n, err)
@@ -1281,6 +1291,9 @@ func normalize(c Case) Case {
 		if s.W.Pre >= s.Payload.Len {
 			s.W.Pre = s.Payload.Len - 1
 		}
+		if s.W.Split < 0 || s.W.Mode != "readfrom" {
+			s.W.Split = 0
+		}
 		// Read followed by WriteTo (what io.Copy does with a reader that was peeked into) on every codec: a reader that
 		// offers WriteTo has to deliver the rest of the stream through it
 		if s.R.Pre < 0 || s.R.Mode != "writeto" {
@@ -1375,6 +1388,9 @@ func labels(c Case, errStream bool) (ls []string, nontrivial bool) {
 		if !c.UseRef {
 			if s.W.Mode == "readfrom" {
 				ls = append(ls, "readfrom_path")
+				if s.W.Split > 0 {
+					ls = append(ls, "readfrom_two_sources")
+				}
 				cw = cw || (s.W.SrcChunk > 0 && s.W.SrcChunk < n) || s.W.Pre > 0
 			} else {
 				cw = cw || chunked(s.W.Chunks, n)
@@ -1663,6 +1679,9 @@ func genStream(t *rapid.T, label string, cs CodecSpec, huge bool) Stream {
 		}
 		if rapid.IntRange(0, 2).Draw(t, label+"_wpost?") == 0 {
 			s.W.Post = rapid.SampledFrom([]int{1, 100, 31745, 40000}).Draw(t, label+"_wpost")
+		}
+		if rapid.IntRange(0, 2).Draw(t, label+"_wsplit?") == 0 {
+			s.W.Split = rapid.SampledFrom([]int{1, 100, 31745, 40000}).Draw(t, label+"_wsplit")
 		}
 	}
 	s.W.Chunks = genSizes(t, label+"_chunks", 0)
